@@ -26,6 +26,10 @@ def main():
                 return mod.replay(chk, a.replay)
             return generic_replay(pid, a.replay)
         mod.run(chk)
+        import cases
+        for what, d in cases.SURFACE_TIE[:3]:
+            if not any(v[0] == what for v in chk.violations):
+                chk.violation(what, d)
     except common.TieError as e:
         # /repo builds, the harness does not: the correspondence no longer checks and nothing could be searched
         chk.violation("the correspondence harness %s no longer compiles against /repo: the tie between the model and the code cannot be checked" % e.harness,
